@@ -36,6 +36,9 @@ BASES = {
                  slices={'a': [0], 'b': [SL[:, 1, :]], 'f': [(np.array([0, 1]), np.array([1, 0]), np.array([0, 0]))],
                          'x': [(slice(None), np.array([1, 0]), slice(0, 1))], 'e': [SL[..., 1]]}),
     's': dict(state=lambda: 2.5, slices={}),
+    # sensitivities that are DyadCarrier objects (the documented sensitivity type of a sparse-matrix signal); the model
+    # holds their dense value
+    'dy': dict(state=lambda: np.arange(1., 10.).reshape(3, 3), slices={}),
 }
 SEED_CONST = [0.0, 0.5, -1.25, 2.0]
 
@@ -52,7 +55,21 @@ def value(kind, what, shape, seed, cplx):
     return v
 
 
-REDUCED = {'v4': ['a', 'f', 'n'], 'm23': ['t', 'f', 'x'], 'c3': ['a', 'f'], 't222': ['b', 'x'], 's': []}
+REDUCED = {'v4': ['a', 'f', 'n'], 'm23': ['t', 'f', 'x'], 'c3': ['a', 'f'], 't222': ['b', 'x'], 's': [], 'dy': []}
+
+
+def as_dyad(v):
+    """DyadCarrier whose dense value is v = base + 0.25*arange(9).reshape(3,3)  (rank 2: two dyads)"""
+    from pymoto import DyadCarrier
+    one, idx = np.ones(3), np.arange(3.)
+    base = v[0, 0]
+    d = DyadCarrier([base * one + 0.75 * idx, one.copy()], [one.copy(), 0.25 * idx])
+    assert np.array_equal(d.todense(), v)
+    return d
+
+
+def dense(x):
+    return x.todense() if hasattr(x, 'todense') else x
 
 
 def alphabet(kind, reduced=False):
@@ -60,6 +77,9 @@ def alphabet(kind, reduced=False):
     if reduced:
         sl = REDUCED[kind]
     ops = []
+    if kind == 'dy':
+        return ([['setG', 'base', v] for v in ('none', 'array')] + [['add', 'base', h] for h in ('fresh', 'none', 'twice', 'shared')]
+                + [['reset', 'base', ka] for ka in ('default', 'keep', 'drop')])
     for t in ['base'] + sl:
         ops.append(['setS', t, 'array'])
         if t != 'base':
@@ -92,11 +112,15 @@ class World:
         self.kind, self.seed = kind, seed
         S0 = BASES[kind]['state']()
         self.cplx = np.iscomplexobj(S0)
+        self.dyad = kind == 'dy'
         self.scalar = not isinstance(S0, np.ndarray)
         g0 = None
         if with_sens:
             g0 = 0.0 if self.scalar else np.zeros_like(S0)
-        self.sig = pym.Signal('s', state=S0 if self.scalar else S0.copy(), sensitivity=g0)
+        gi = g0
+        if self.dyad and with_sens:
+            gi = pym.DyadCarrier(shape=(3, 3))
+        self.sig = pym.Signal('s', state=S0 if self.scalar else S0.copy(), sensitivity=gi)
         self.aux = pym.Signal('b', state=S0 if self.scalar else S0.copy())
         self.m = SigModel(S0, None if g0 is None else (g0 if self.scalar else g0.copy()))
         self.ma = SigModel(S0, None)
@@ -122,6 +146,9 @@ class World:
         if isinstance(obj, np.ndarray):
             obj += 1000.0          # the harness changes what it passed: must not reach the signal
             self.held.append((obj, obj.copy()))
+        elif self.dyad:
+            obj.add_dyad(np.ones(3), 1000.0 * np.ones(3))
+            self.held.append((obj, obj.todense()))
 
     def apply(self, op):
         kind, t, arg = op
@@ -137,7 +164,8 @@ class World:
         elif kind == 'setG':
             v = None if arg == 'none' else value(self.kind, 'setG', shp if arg == 'array' else None, self.seed, self.cplx)
             if t == 'base':
-                self.sig.sensitivity = v if not isinstance(v, np.ndarray) else np.array(v)
+                obj = v if not isinstance(v, np.ndarray) else (as_dyad(v) if self.dyad else np.array(v))
+                self.sig.sensitivity = obj
                 self.m.set_sens(v)
             else:
                 self.sl[t].sensitivity = v if not isinstance(v, np.ndarray) else np.array(v)
@@ -150,7 +178,7 @@ class World:
             v = value(self.kind, what, shp, self.seed, self.cplx)
             if isinstance(v, np.ndarray) and v.ndim == 0:
                 v = v.item()
-            obj = np.array(v) if isinstance(v, np.ndarray) else v
+            obj = (as_dyad(v) if self.dyad else np.array(v)) if isinstance(v, np.ndarray) else v
             tgt = self.sig if t == 'base' else self.sl[t]
             reps = 2 if arg == 'twice' else 1
             for _ in range(reps):
@@ -189,7 +217,7 @@ class World:
     def _cmp(self, got, want, what, exact=False):
         if want is None or got is None:
             return None if (want is None and got is None) else f'{what}:noneness'
-        g, w = np.asarray(got), np.asarray(want)
+        g, w = np.asarray(dense(got)), np.asarray(want)
         if g.shape != w.shape:
             return f'{what}:shape'
         if (g.dtype.kind == 'c') != (w.dtype.kind == 'c'):
@@ -220,7 +248,7 @@ class World:
                         bad.append(r + f'[{slice_kind(self.kind, name)}]')
         for obj, snap in self.held:
             n += 1
-            if not exact_equal(obj, snap):
+            if not exact_equal(dense(obj), snap):
                 bad.append('held_object_changed')
         return n, bad
 
@@ -228,13 +256,17 @@ class World:
         def b(x):
             if x is None:
                 return b'N'
-            a = np.asarray(x)
+            a = np.asarray(dense(x))
             return a.dtype.str.encode() + str(a.shape).encode() + a.tobytes()
         alias = []
         for obj, _ in self.held:
             for s in (self.sig, self.aux):
                 g = s.sensitivity
-                alias.append(isinstance(g, np.ndarray) and np.shares_memory(g, obj))
+                if self.dyad:
+                    alias.append(g is not None and (g is obj or g.u is obj.u or g.v is obj.v or any(
+                        np.shares_memory(p_, q_) for p_ in list(g.u) + list(g.v) for q_ in list(obj.u) + list(obj.v))))
+                else:
+                    alias.append(isinstance(g, np.ndarray) and np.shares_memory(g, obj))
         return (b(self.sig.state), b(self.sig.sensitivity), b(self.aux.state), b(self.aux.sensitivity),
                 bytes(alias) if any(alias) else b'')
 
@@ -349,7 +381,7 @@ def generate(tier, seed):
                                                             (5, True)]
     for d, red in plan:
         yield {'__level__': f"depth{d}/{'reduced' if red else 'full'}"}
-        for kind in ('s', 'c3', 'v4', 'm23', 't222'):
+        for kind in ('s', 'dy', 'c3', 'v4', 'm23', 't222'):
             for ws in (False, True):
                 al = alphabet(kind, red)
                 if d <= 3:
